@@ -32,6 +32,9 @@ type kase struct {
 	Vals   []json.RawMessage `json:"vals"`
 	Ops    []json.RawMessage `json:"ops"`
 	Stream bool              `json:"stream"`
+	// GobCross: also compare every decoded value with every original (geq) and allow the HashMap ops
+	// "setg"/"getg", which use the value as it came out of the gob decoder
+	GobCross bool `json:"gobcross"`
 }
 
 type gobRes struct {
@@ -57,6 +60,7 @@ type result struct {
 	Eq     [][]int       `json:"eq"`
 	Ops    []interface{} `json:"ops"`
 	Stream []interface{} `json:"stream,omitempty"`
+	GEq    [][]int       `json:"geq,omitempty"` // geq[i][j] = decoded(vals[i]).Equal(vals[j])
 	Err    string        `json:"err,omitempty"`
 }
 
@@ -220,6 +224,11 @@ func safeStr(a tla.Value) (s string, errs string) {
 }
 
 func gobRound(v tla.Value) (g gobRes) {
+	g, _ = gobRoundV(v)
+	return
+}
+
+func gobRoundV(v tla.Value) (g gobRes, out tla.Value) {
 	defer func() {
 		if r := recover(); r != nil {
 			_, m := classify(r)
@@ -228,13 +237,12 @@ func gobRound(v tla.Value) (g gobRes) {
 	}()
 	var buf bytes.Buffer
 	if err := gob.NewEncoder(&buf).Encode(&v); err != nil {
-		return gobRes{OK: false, Err: "encode: " + err.Error()}
+		return gobRes{OK: false, Err: "encode: " + err.Error()}, out
 	}
-	var out tla.Value
 	if err := gob.NewDecoder(&buf).Decode(&out); err != nil {
-		return gobRes{OK: false, Err: "decode: " + err.Error()}
+		return gobRes{OK: false, Err: "decode: " + err.Error()}, out
 	}
-	return gobRes{OK: true, Rep: dump(out), EqOD: safeEq(v, out), EqDO: safeEq(out, v), Hash: uint32(safeHash(out))}
+	return gobRes{OK: true, Rep: dump(out), EqOD: safeEq(v, out), EqDO: safeEq(out, v), Hash: uint32(safeHash(out))}, out
 }
 
 // all values of the case through ONE encoder/decoder pair (type descriptors are sent once per stream)
@@ -263,7 +271,7 @@ func gobStream(vs []tla.Value) (outs []interface{}) {
 	return
 }
 
-func runOps(vs []tla.Value, ops []json.RawMessage) (outs []interface{}) {
+func runOps(vs []tla.Value, dvs []tla.Value, ops []json.RawMessage) (outs []interface{}) {
 	h := hashmap.New[int]()
 	for _, raw := range ops {
 		var op []json.RawMessage
@@ -284,6 +292,21 @@ func runOps(vs []tla.Value, ops []json.RawMessage) (outs []interface{}) {
 				json.Unmarshal(op[2], &p)
 				h.Set(vs[i], p)
 				outs = append(outs, nil)
+			case "setg":
+				var i, p int
+				json.Unmarshal(op[1], &i)
+				json.Unmarshal(op[2], &p)
+				h.Set(dvs[i], p)
+				outs = append(outs, nil)
+			case "getg":
+				var i int
+				json.Unmarshal(op[1], &i)
+				v, ok := h.Get(dvs[i])
+				if ok {
+					outs = append(outs, []interface{}{"some", v})
+				} else {
+					outs = append(outs, []interface{}{"none"})
+				}
 			case "get":
 				var i int
 				json.Unmarshal(op[1], &i)
@@ -319,9 +342,21 @@ func runCase(k kase) (res result) {
 	for i, raw := range k.Vals {
 		vs[i] = build(raw)
 	}
-	for _, v := range vs {
+	dvs := make([]tla.Value, len(vs))
+	for i, v := range vs {
 		s, serr := safeStr(v)
-		res.Vals = append(res.Vals, valRes{Rep: dump(v), Hash: safeHash(v), Str: s, SErr: serr, Gob: gobRound(v)})
+		g, dv := gobRoundV(v)
+		dvs[i] = dv
+		res.Vals = append(res.Vals, valRes{Rep: dump(v), Hash: safeHash(v), Str: s, SErr: serr, Gob: g})
+	}
+	if k.GobCross {
+		for i := range vs {
+			row := make([]int, len(vs))
+			for j := range vs {
+				row[j] = safeEq(dvs[i], vs[j])
+			}
+			res.GEq = append(res.GEq, row)
+		}
 	}
 	for i := range vs {
 		row := make([]int, len(vs))
@@ -330,7 +365,7 @@ func runCase(k kase) (res result) {
 		}
 		res.Eq = append(res.Eq, row)
 	}
-	res.Ops = runOps(vs, k.Ops)
+	res.Ops = runOps(vs, dvs, k.Ops)
 	if k.Stream {
 		res.Stream = gobStream(vs)
 	}
